@@ -16,6 +16,17 @@ def main():
     rng = c.rng
     O = qdriver.Oracle()
     prefixes = sorted(n for n, p in O.exp["prefix_by_name"].items() if not isinstance(p, dict))
+    # ---- the registered SI and IEC prefixes are the ones of the standards (BIPM SI brochure table 7, IEC 80000-13): the check's own table, since a
+    # wrong exponent in the prefix module would otherwise be the oracle's as well
+    STANDARD = {"yotta": (10, 24), "zetta": (10, 21), "exa": (10, 18), "peta": (10, 15), "tera": (10, 12), "giga": (10, 9), "mega": (10, 6), "kilo": (10, 3), "hecto": (10, 2), "deca": (10, 1),
+                "deci": (10, -1), "centi": (10, -2), "milli": (10, -3), "micro": (10, -6), "nano": (10, -9), "pico": (10, -12), "femto": (10, -15), "atto": (10, -18), "zepto": (10, -21), "yocto": (10, -24),
+                "kibi": (2, 10), "mebi": (2, 20), "gibi": (2, 30), "tebi": (2, 40), "pebi": (2, 50), "exbi": (2, 60), "zebi": (2, 70), "yobi": (2, 80)}
+    for n_, (b_, e_) in STANDARD.items():
+        c.count(["standard-prefix", n_], nontrivial=True)
+        got_ = O.exp["prefix_by_name"].get(n_)
+        if got_ is not None and (isinstance(got_, dict) or tuple(got_) != (b_, e_)):
+            c.violation(f"standard-prefix:{n_}", f"the prefix {n_} is registered as {got_}; the standard defines it as {b_}**{e_}", {"prefix": n_, "registered": got_, "standard": [b_, e_],
+                        "how": f"(1 * ({n_} * Meter)).unprefixed().magnitude against {b_}**{e_}"})
     # ---- relations on the implementation: prefix x prefix x exponent grid exhaustive, units/magnitudes sampled
     rel = []
     for p in prefixes:
